@@ -16,6 +16,7 @@ package set
 //@ o-fork: comparable elem(typ)
 //@ serves: set len=1 typ=typs[0]
 //@ o-sig: (list []$elem(typ)) (r map[$elem(typ)]struct{})
+//@ o-result-fresh
 //@ o-pure
 //@ o-ensures: [set] r != nil && forall k val :: (k in r) <==> exists j int :: 0 <= j && j < len(list) && list[j] == k
 //@ o-loop: 1: invariant set != nil && forall k val :: (k in set) <==> exists j int :: 0 <= j && j < $i && list[j] == k
